@@ -94,6 +94,11 @@ def run_unit(name, repo, work, tier):
     for f in res.failures:
         if asm.fns.get(f.fn, {}).get("auto"):
             out["undecided"].append("%s: obligation inside adopted helper %s not discharged (%s) — helpers carry derived contracts only, not a verdict" % (name, f.fn, f.message))
+        elif asm.fns.get(f.fn, {}).get("bare_loops"):
+            # the body contains a loop the contract carries no invariant for (the function was rewritten with a new loop): nothing
+            # after such a loop is provable whatever the code does, so the failure says nothing about the property
+            out["undecided"].append("%s: %s/%s not discharged, but the body now contains a loop (#%s) for which the contract has no invariant (%s) — not a verdict" % (
+                name, f.fn, f.label, ",".join(map(str, asm.fns[f.fn]["bare_loops"])), f.message))
         elif f.fn in weak:
             out["undecided"].append("%s: %s/%s not discharged, but the function calls an adopted helper without contract (%s) — not a verdict" % (
                 name, f.fn, f.label, f.message))
@@ -129,7 +134,7 @@ def serves(props, pid):
 
 
 def relevant(f, pid):
-    return serves(f.props, pid)
+    return serves(f.props, pid) or (f.label == "safety" and pid in registry.SAFETY_SERVES)
 
 
 # names std collections also use: a textual `.insert(` says nothing about which `insert` is meant
@@ -276,10 +281,10 @@ def _run(pid, cfg, tier, seed, repo, work, t0):
         if asm is None:
             continue
         for (fn, label, props, kind, text) in asm.obligations():
-            if serves(props, pid) or (kind == "invariant" and serves(asm.fns.get(fn, {}).get("props", ()), pid)):
+            if serves(props, pid) or (kind == "invariant" and serves(asm.fns.get(fn, {}).get("props", ()), pid)) or (kind == "safety" and pid in registry.SAFETY_SERVES):
                 obligations.append(dict(unit=u["name"], function=fn, obligation=label, kind=kind, clause=text, backend="verus/z3"))
         for fn, meta in asm.fns.items():
-            if pid in meta["props"]:
+            if pid in meta["props"] or pid in registry.SAFETY_SERVES:
                 fns.append("%s (%s:%d)" % (fn, meta["file"], meta["line"]))
         for k, v in asm.rule_hits.items():
             rule_hits[k] = rule_hits.get(k, 0) + v
@@ -477,7 +482,7 @@ def _run(pid, cfg, tier, seed, repo, work, t0):
                         lines.append("KNOWN-FINDING: property=%s %s" % (pid, kf[0].get("what", key)))
                 else:
                     os.makedirs(os.path.join(OUT(), "replays"), exist_ok=True)
-                    path = os.path.join(OUT(), "replays", "%s-probe.json" % pid)
+                    path = os.path.join(OUT(), "replays", "%s-probe-%s.json" % (pid, test))
                     with open(path, "w") as fo:
                         json.dump(dict(property=pid, lane="oracle probe", seed=seed, tree=repo, failed_obligation=key, counterexample=x,
                                        replay=dict(kind="oracle-test", groups=[grp], test=test, seed=seed)), fo, indent=1)
